@@ -92,8 +92,10 @@ class StorageInterp:
                 return TV(b.sid, self.latest[b.sid], b.prov)  # conservative: a view
             return None
         if isinstance(e, (ast.BinOp,)):
-            self.ev(e.left)
-            self.ev(e.right)
+            l = self.ev(e.left)
+            r = self.ev(e.right)
+            if l is not None and l.ver < self.latest[l.sid]:
+                self.problems.append("left operand `%s` (line %d) is overwritten in place by the right operand through `%s`" % (src(e.left)[:40], getattr(e, "lineno", 0), self.last_writer.get(l.sid, "?")))
             return self.fresh()
         if isinstance(e, ast.UnaryOp):
             v = self.ev(e.operand)
@@ -126,7 +128,18 @@ class StorageInterp:
             if isinstance(x, ast.Name) and isinstance(x.ctx, ast.Load):
                 self.read_name(x.id, x, content=True)
 
+    def _check_operands(self, c: ast.Call, vals: List[Optional[TV]]):
+        """an operand evaluated earlier must not have been overwritten in place by a later operand of the same call"""
+        for a, v in vals:
+            if v is not None and v.ver < self.latest[v.sid]:
+                self.problems.append("operand `%s` of `%s` (line %d) is overwritten in place by a later operand of the same call through `%s` (they share storage)"
+                                     % (src(a)[:40], src(c.func)[:40], getattr(c, "lineno", 0), self.last_writer.get(v.sid, "?")))
+
     def ev_call(self, c: ast.Call) -> Optional[TV]:
+        r = self._ev_call(c)
+        return r
+
+    def _ev_call(self, c: ast.Call) -> Optional[TV]:
         f = c.func
         # out= keyword
         outv = None
@@ -142,11 +155,13 @@ class StorageInterp:
                 return None
             # ctx.save_for_backward handled by the driver
             recv = self.ev(f.value)
+            vals = [(f.value, recv)]
             for a in c.args:
-                self.ev(a)
+                vals.append((a, self.ev(a)))
             for k in c.keywords:
                 if k.arg != "out":
-                    self.ev(k.value)
+                    vals.append((k.value, self.ev(k.value)))
+            self._check_operands(c, vals)
             if recv is not None:
                 if m.endswith("_") and not m.endswith("__") and m not in NON_MUTATING_UNDERSCORE:
                     root = _inplace_root(f.value)
@@ -178,10 +193,12 @@ class StorageInterp:
                             return nv
             return self.fresh()
         if isinstance(f, ast.Name):
+            vals = []
             for a in c.args:
-                self.ev(a)
+                vals.append((a, self.ev(a)))
             for k in c.keywords:
-                self.ev(k.value)
+                vals.append((k.value, self.ev(k.value)))
+            self._check_operands(c, vals)
             if f.id in self.callable_args:
                 return self.fresh()  # assumption: distance callables allocate their result
             if f.id in self.mutating_helpers:
